@@ -57,6 +57,8 @@ def plan(tier, seed):
     out += [{'kind': 'rnd', 'seed': seed, 'idx': i} for i in range(n)]
     m = 1500 if tier == 'quick' else 40000
     out += [{'kind': 'sim', 'seed': seed, 'idx': i} for i in range(m)]
+    c = 300 if tier == 'quick' else 8000
+    out += [{'kind': 'cfg', 'seed': seed, 'idx': i} for i in range(c)]
     return out
 
 
@@ -147,6 +149,9 @@ def run_case(spec):
         for v in res.viol:
             v['spec'] = v['detail'].pop('_spec')
         return res
+    if k == 'cfg':
+        cfg_case(spec, rnd, res)
+        return res
     # ---- SIM
     h = spec.get('h') or gen_sim(rnd)
     w = simhist.new_world(h)
@@ -160,6 +165,83 @@ def run_case(spec):
     finally:
         w.close()
     return res
+
+
+def cfg_case(spec, rnd, res):
+    """a daemon loaded from an ini file in SIM: every worker's environment and directory must be exactly what
+    the file configures (reference reading: vlib/ref/configreader.py)"""
+    import shutil
+    import tempfile
+    from vlib import sim as simmod
+    from vlib.ref.configreader import reference
+    names = rnd.sample(['w1', 'w2', 'web', 'Wx'], rnd.randint(2, 3))
+    secs = []
+    for n in names:
+        items = [('cmd', 'w_%s --wid $(circus.wid)' % n.lower()), ('numprocesses', str(rnd.randint(1, 2))),
+                 ('graceful_timeout', '0.1'), ('working_dir', rnd.choice(['/tmp', '/']))]
+        if rnd.random() < .3:
+            items.append(('copy_env', 'true'))
+        secs.append(('watcher', n, items))
+    if rnd.random() < .7:
+        secs.append(('env', '', [('GLOBALV', 'g'), ('SHARED', 'from-env')]))
+    for pat in rnd.sample(names + ['w*', '*'], rnd.randint(1, 3)):
+        secs.append(('env:', pat, [('SHARED', 'from-' + pat), ('ONLY_%s' % pat.strip('*').upper() or 'ALL', pat)]))
+    rnd.shuffle(secs)
+    text = '[circus]\ncheck_delay = -1\nendpoint = ipc:///sim/ctrl\npubsub_endpoint = ipc:///sim/pub\n\n'
+    for kind, name, items in secs:
+        hdr = {'watcher': 'watcher:' + name, 'env': 'env', 'env:': 'env:' + name}[kind]
+        text += '[%s]\n' % hdr + ''.join('%s = %s\n' % kv for kv in items) + '\n'
+    d = tempfile.mkdtemp(prefix='verif-c13-')
+    path = os.path.join(d, 'c.ini')
+    open(path, 'w').write(text)
+    w = simhist.new_world({})
+    nv = len(res.viol)
+    try:
+        def go():
+            arb = w.load_arbiter(path)
+            f = arb.start()
+            return f
+        from tornado import gen as _gen
+
+        @_gen.coroutine
+        def run():
+            arb = w.load_arbiter(path)
+            yield arb.start()
+            yield w.settle(30)
+            # one more generation
+            for p in w.kernel.live():
+                w.kernel.kill(p, 9, sender='ext')
+            yield w.advance(1.0)
+            yield w.check()
+            yield w.settle(30)
+        w.run(run)
+        ref = reference(secs, dict(os.environ))
+        for p in w.kernel.procs.values():
+            if not p.spawn_no:
+                continue
+            owner = [n for n in names if p.tag == 'w_' + n.lower()]
+            if not owner:
+                continue
+            r = ref[owner[0]]
+            want = dict(os.environ) if r['copy_env'] else {}
+            want.update(r['env'])
+            res.obs['cfg_spawns_checked'] += 1
+            got = p.env or {}
+            if got != want:
+                extra = {k_: got[k_] for k_ in got if k_ not in want}
+                wrong = {k_: (got.get(k_), want[k_]) for k_ in want if got.get(k_) != want[k_]}
+                res.violation('C13/worker-env-differs-from-file', 'worker of %s started with an environment that is not '
+                              'the configured one: extra %s, wrong/missing (got, configured) %s'
+                              % (owner[0], dict(list(extra.items())[:4]), dict(list(wrong.items())[:4])), text=text)
+            if p.cwd != r['working_dir']:
+                res.violation('C13/worker-cwd-differs-from-file', 'cwd %r, file says %r' % (p.cwd, r['working_dir']))
+        res.nontrivial(text)
+        res.sample = {'file': text}
+    finally:
+        w.close()
+        shutil.rmtree(d, ignore_errors=True)
+        for v in res.viol[nv:]:
+            v['spec'] = dict(spec)
 
 
 KINDS = ['incr', 'incr', 'decr', 'setnp', 'restart', 'reload', 'reloadseq', 'reloadterm', 'extkill', 'extkill', 'selfexit',
